@@ -165,3 +165,135 @@ Definition field_spec (f : N -> N) (cur : N) (s : list N) : N :=
 
 Definition cat_sanitize (cat : tcat) (mask : N) (m : N) : N :=
   match cat with CatMe => sanitize_p2p mask m | CatGrp => m end.
+
+(* ====================================================================================== *)
+(* The mode text of a SUBSCRIPTION ({set sub.mode}, {sub set.sub.mode}) on an EXISTING
+   subscription of a group or p2p topic: the text is read by thisUserSub (topic.go:1466, own
+   subscription: the user's want), anotherUserSub (topic.go:1844, somebody else's subscription:
+   the given) and, for a session that is not attached, by hub.go replyOfflineTopicSetSub.
+   Only what these functions do to (want, given) of the subscription and the code of the reply
+   is modelled; notifications are layer 2, ownership is C06, who may change what is C07.
+   New subscriptions / invitations take defaults when the text is empty (there is no value to
+   keep) and are left to C06/C07. *)
+
+Definition ModeJoin : N := 1.
+Definition ModeDelete : N := 64.
+
+Inductive scat := SGrp | SP2P.
+
+Definition is_joiner (m : N) : bool := negb (N.land m ModeJoin =? 0).
+Definition is_approver (m : N) : bool := negb (N.land m ModeApprove =? 0).
+Definition is_admin (m : N) : bool := is_owner m || is_approver m.
+Definition is_sharer (m : N) : bool := is_admin m || negb (N.land m 32 =? 0).
+
+(* outcome: error reply, nothing written | the ownership-transfer path (C06) | reply code and
+   the (want, given) of the subscription afterwards, in the cache and in the store *)
+Inductive ss_res := SsErr (code : N) | SsOwnerChange | SsDone (code want given : N).
+
+(* `modeWant := types.ModeUnset; if want != "" { if err := modeWant.UnmarshalText(want); err != nil {400} }` *)
+Definition sub_mode_text (s : list N) : option N :=
+  match s with
+  | [] => Some ModeUnset
+  | _ :: _ => let '(m, bad) := unmarshal_err ModeUnset s in if bad then None else Some m
+  end.
+
+(* thisUserSub, branch "Process update to existing subscription", group or p2p topic, not a
+   channel reader.  topicOwner: t.owner == asUid; af: t.accessFor(asLvl). *)
+Definition this_user_sub_existing (cat : scat) (topicOwner : bool) (af oldWant oldGiven : N)
+           (s : list N) : ss_res :=
+  match sub_mode_text s with
+  | None => SsErr 400
+  | Some modeWant0 =>
+    (* "Explicit modeWant is provided": inl (modeWant, modeGiven, ownerChange) | inr code *)
+    let explicit : (N * N * bool) + N :=
+      if negb (modeWant0 =? ModeUnset) then
+        if topicOwner && (negb (is_owner modeWant0) || negb (is_joiner modeWant0)) then inr 403
+        else
+          let sane : (N * bool) + N :=
+            if is_owner oldGiven then
+              inl (if is_owner modeWant0 && negb (better_equal oldGiven modeWant0)
+                   then N.lor oldGiven modeWant0 else oldGiven,
+                   is_owner modeWant0 && negb (is_owner oldWant))
+            else if is_owner modeWant0 then inr 403
+            else if (match cat with SGrp => true | SP2P => false end) && is_admin oldGiven && is_admin modeWant0 then
+              let mw := N.ldiff modeWant0 ModeDelete in
+              inl (if negb (better_equal oldGiven mw) then N.lor oldGiven mw else oldGiven, false)
+            else inl (oldGiven, false) in
+          match sane with
+          | inr c => inr c
+          | inl (g, oc) =>
+            inl (match cat with
+                 | SP2P => N.lor (N.land modeWant0 ModeCP2P) ModeApprove
+                 | SGrp => modeWant0
+                 end, g, oc)
+          end
+      else inl (modeWant0, oldGiven, false) in
+    match explicit with
+    | inr c => SsErr c
+    | inl (modeWant, given', ownerChange) =>
+      let want' :=
+        if modeWant =? ModeUnset then
+          (* "If the user has self-banned before, un-self-ban. Otherwise do not make a change." *)
+          if negb (is_joiner oldWant) then
+            let w := N.lor given' af in
+            if negb topicOwner then N.ldiff w ModeOwner else w
+          else oldWant
+        else if negb (oldWant =? modeWant) then modeWant else oldWant in
+      if ownerChange then SsOwnerChange
+      else
+        let changed := negb (oldWant =? want') || negb (oldGiven =? given') in
+        let code := if changed then 200 else 304 in
+        if negb (is_joiner want') then SsDone code want' given'        (* self-ban: evicted, reply as usual *)
+        else if negb (is_joiner given') then SsDone 403 want' given'   (* "user is banned": after the write *)
+        else SsDone code want' given'
+    end
+  end.
+
+(* anotherUserSub, branch "Action on an existing subscription".  hostMode: given & want of the
+   requester; hostIsOwner: t.owner == asUid; targetIsOwner: t.owner == target. *)
+Definition another_user_sub_existing (cat : scat) (hostMode : N) (hostIsOwner targetIsOwner : bool)
+           (oldWant oldGiven : N) (s : list N) : ss_res :=
+  if negb (is_sharer hostMode) then SsErr 403
+  else
+    let parsed : option N :=
+      match s with
+      | [] => Some ModeUnset
+      | _ :: _ =>
+        let '(m, bad) := unmarshal_err ModeUnset s in
+        if bad then None
+        else Some (match cat with SP2P => N.lor (N.land m ModeCP2P) ModeApprove | SGrp => m end)
+      end in
+    match parsed with
+    | None => SsErr 400
+    | Some modeGiven =>
+      if negb (modeGiven =? ModeUnset) && negb (is_admin hostMode) then SsErr 403
+      else if is_owner modeGiven && negb hostIsOwner then SsErr 403
+      else if modeGiven =? ModeUnset then SsDone 304 oldWant oldGiven     (* re-send the invite *)
+      else if negb (modeGiven =? oldGiven) then
+        if targetIsOwner && (negb (is_owner modeGiven) || negb (is_joiner modeGiven)) then SsErr 403
+        else SsDone 200 oldWant modeGiven
+      else SsDone 304 oldWant oldGiven
+    end.
+
+(* hub.go replyOfflineTopicSetSub for {set sub:{mode}} (no desc, no sub.user) of a subscribed user
+   whose session is not attached; `var modeWant types.AccessMode` starts as 0.  A text that does not
+   parse is answered through decodeStoreError: not a StoreError -> ErrUnknown (500). *)
+Definition offline_set_sub (cat : scat) (oldWant oldGiven : N) (s : list N) : ss_res :=
+  match s with
+  | [] => SsDone 304 oldWant oldGiven
+  | _ :: _ =>
+    let '(m, bad) := unmarshal_err ModeNone s in
+    if bad then SsErr 500
+    else if negb (Bool.eqb (is_owner m) (is_owner oldWant)) then SsErr 403
+    else
+      let modeWant := match cat with SP2P => N.lor (N.land m ModeCP2P) ModeApprove | SGrp => m end in
+      if negb (modeWant =? oldWant) then SsDone 200 modeWant oldGiven else SsDone 304 oldWant oldGiven
+  end.
+
+(* the (want, given) a subscription holds after the request *)
+Definition ss_modes (oldWant oldGiven : N) (r : ss_res) : option (N * N) :=
+  match r with
+  | SsErr _ => Some (oldWant, oldGiven)
+  | SsOwnerChange => None
+  | SsDone _ w g => Some (w, g)
+  end.
